@@ -5,6 +5,15 @@ pub open spec fn rs_a(s: Seq<char>) -> Seq<char> { trim_spec(rs_parts(s)[0]) }
 pub open spec fn rs_b(s: Seq<char>) -> Seq<char> { if rs_parts(s).len() > 1 { trim_spec(rs_parts(s)[1]) } else { Seq::empty() } }
 pub open spec fn num_ok(t: Seq<char>) -> bool { parses_unsigned(t, u64::MAX as nat) }
 pub open spec fn num(t: Seq<char>) -> nat { dec_val(unsigned_digits(t)) }
+// a byte position as RFC 9110 writes it: one or more digits (the '+' that Rust's parser also takes is not required to work)
+pub open spec fn strict_num(t: Seq<char>) -> bool { t.len() > 0 && all_digits(t) && dec_val(t) <= u64::MAX }
+pub proof fn lemma_strict_num(t: Seq<char>)
+    requires strict_num(t),
+    ensures num_ok(t), num(t) == dec_val(t),
+{
+    assert(is_digit(t[0]));
+    assert(unsigned_digits(t) == t);
+}
 
 // what a successfully parsed range-spec must look like for a file of `len` bytes (offsets; the last-byte label is separate)
 pub open spec fn range_ok(len: u64, s: Seq<char>, r: Range) -> bool {
